@@ -25,7 +25,7 @@ simple("C06", "model_checking",
        "ZWJ, ZWNJ, virama, Joining_Type D/L/R/T/U incl. N'Ko, Mongolian, Adlam, marks of two classes, the four dots, 'xn--', '-', upper case, "
        "sharp s, final sigma, an ignored, a disallowed, a fullwidth, a precomposed letter, two Unicode 14 code points) and every ACE label "
        "xn--<digits<=5/6> alone and next to a non-ASCII and an RTL label; (5) hostname of parse(\"https://<domain>/\") and set_hostname, both "
-       "URL types, raw and percent-encoded, vs refurl; (6) per-code-point table audits through is_label_valid / is_already_nfc probe labels: "
+       "URL types, raw and percent-encoded, vs refurl; (6) per-code-point table audits through is_label_valid verdicts on probe labels and normalize() output on mark pairs: "
        "combining marks, virama, joining types, canonical combining class vs Unicode 17, Bidi class vs Unicode 15.1 on 15.1-assigned code "
        "points; (7) IdnaTestV2.json + toascii.json vectors. states = distinct results, transitions = evaluations, every evaluation is one "
        "model trace replayed on the implementation",
@@ -37,7 +37,9 @@ simple("C06", "model_checking",
         "rule because of *other* labels is accepted either way",
         "punycode_to_utf32 / verify_punycode are judged directly on lower-case digits only (they are only called on mapped labels); upper-case "
         "digits are judged through to_ascii; decoded values outside the scalar range are not judged directly (RFC 3492 does not bound them)",
-        "a disagreement is attributed to a listed root cause only if the model with exactly that deviation switched on reproduces ada's output"],
+        "a disagreement is attributed to a listed root cause only if the model with exactly that deviation switched on reproduces ada's output; "
+        "the deviation list holds only defects the pinned tree still has (repaired ones are removed, so a recurrence is reported)",
+        "ada::idna::is_already_nfc is a shortcut hint and is not judged; only normalize()/to_ascii()/to_unicode() results are"],
        lambda tier: [_idna_stage("C06", tier)],
        needs_models=True)
 
